@@ -201,7 +201,8 @@ def adversary_script(p, role):
 
 
 def run_one(sc, label, role, target=None, new=None, pre_inject=None,
-            budget=None, trace_mem=False, link_inject=None):
+            budget=None, trace_mem=False, link_inject=None,
+            close_socket=True):
     """role = who is the adversary. returns (R, adversary, work, peak)"""
     holder = {}
 
@@ -209,6 +210,9 @@ def run_one(sc, label, role, target=None, new=None, pre_inject=None,
         adv_conn = p.c if role == "client" else p.s
         holder["adv"] = Adversary(adv_conn, target, new, pre_inject)
         holder["p"] = p
+        # with closeSocket off nothing flushes the socket on shutdown: the
+        # alert has to have left on its own
+        (p.s if role == "client" else p.c).closeSocket = close_socket
         if link_inject:
             link_inject(p)
     # run with our own programs: handshake + adversary script
@@ -281,8 +285,10 @@ def plan(ctx, sc, role, label):
                     ops += mut.der_ops(raw, rng, want=ctx.pick(6, 40))
             if ctx.quick:
                 # sample operators but always keep the bombs
-                keep = [o for o in ops if o[0].startswith("zbomb")]
-                rest = [o for o in ops if not o[0].startswith("zbomb")]
+                keep = [o for o in ops if o[0].startswith(("zbomb",
+                                                           "ext_u16="))]
+                rest = [o for o in ops if not o[0].startswith(("zbomb",
+                                                               "ext_u16="))]
                 rng.shuffle(rest)
                 ops = keep + rest[:16]
             allops[i] = ops
@@ -487,10 +493,12 @@ def run_case(ctx, cid, P):
     fam = "tls13" if sc.ver == (3, 4) else "le12"
     budget = 40 * bwork + 4_000_000
     vrole = "server" if role == "client" else "client"
+    close_socket = ctx.rng.random() < 0.6
     if "atk" in P:
         pre = record_attack(P["atk"], ctx.rng)
         R, adv, work, peak = run_one(sc, P["label"], role, target=P["at"],
                                      pre_inject=pre, budget=budget,
+                                     close_socket=close_socket,
                                      trace_mem=P["atk"] in (
                                          "len_ffff", "oversize_plain",
                                          "huge_hs_len_then_stall"))
@@ -518,7 +526,8 @@ def run_case(ctx, cid, P):
     bomb = name.startswith("zbomb") or name in ("hs_len_max", "lf_lenmax",
                                                 "hs_len_64k")
     R, adv, work, peak = run_one(sc, P["label"], role, target=i, new=newb,
-                                 budget=budget, trace_mem=bomb)
+                                 budget=budget, trace_mem=bomb,
+                                 close_socket=close_socket)
     if not adv.applied:
         ctx.count("not_applied")
         return
@@ -527,7 +536,8 @@ def run_case(ctx, cid, P):
            "msg": wire.HS.get(t, str(t))}
     W = {"case": cid, "scenario": sc.name, "msg_index": i,
          "msg_type": wire.HS.get(t, t), "operator": name,
-         "mutant": newb[:700], "outcome": [outcome(R.tc), outcome(R.ts)]}
+         "mutant": newb[:700], "outcome": [outcome(R.tc), outcome(R.ts)],
+         "closeSocket": close_socket}
     out = judge(ctx, key, W, R, adv, role, work, budget, peak, len(newb))
     ctx.count("mutations")
     ctx.maxi("work", work)
